@@ -126,11 +126,13 @@ Lemma evaluation_resets : evaluation_resets_dedup_state = true.
 Proof. reflexivity. Qed.
 Lemma run_queryD_from_DL h dom sel c : run_queryD_from h dom DL sel c = run_queryD h dom sel c.
 Proof. reflexivity. Qed.
-Theorem history_rows_independent h dom leftover sel c : forall steps i,
-  history_rows h dom leftover sel c steps i DL =
-  map (fun k => match k with None => run_queryD h dom sel c | Some n => firstn n (run_queryD h dom sel c) end) steps.
+Lemma evaluation_resets_at_start : evaluation_resets_dedup_state_at_start = true.
+Proof. reflexivity. Qed.
+Theorem history_rows_independent h dom leftover sel c : forall steps i s,
+  history_rows h dom leftover sel c steps i s =
+  map (fun st : option nat * bool => match fst st with None => run_queryD h dom sel c | Some n => firstn n (run_queryD h dom sel c) end) steps.
 Proof.
-  induction steps as [|k steps IH]; intros i; [reflexivity|]. cbn [history_rows map]. rewrite evaluation_resets, (IH (S i)).
+  induction steps as [|[k kept] steps IH]; intros i s; [reflexivity|]. cbn [history_rows map fst]. rewrite evaluation_resets_at_start, (IH (S i)).
   now rewrite run_queryD_from_DL.
 Qed.
 
